@@ -256,7 +256,7 @@ def _history(case):
                     n2 = len(nb2)
                     px2 = gen.matrix_kinds(rng, n2, symm)
                     df2 = gen.pixels_df([[i, j, 0] for i, j, _ in px2])
-                    df2["count"] = np.array([v / 4 for _, _, v in px2], dtype=np.float64)
+                    df2["count"] = np.array([v + 0.25 for _, _, v in px2], dtype=np.float64)   # never integral
                     impl(cooler.create_cooler, src2, nb2, df2, symmetric_upper=symm, ordered=True, dtypes={"count": "float64"})
                     srcs = [src, src2]
                     res = sorted({int(c.binsize) * 2, b2 * 2})
@@ -402,7 +402,7 @@ def cases(tier, rng):
     yield "history", {"seed": 12, "n": 6, "symm": False, "var": False, "layout": [6], "steps": 3, "scool": False}
     # second-wave seeded changes: zoomify from two bases with different count dtypes; totals beyond int32; scool cells
     for sd in (21, 22, 23, 24):
-        yield "history", {"seed": sd, "n": 4 + sd % 3, "symm": True, "var": False, "layout": [4 + sd % 3], "steps": 2, "scool": sd % 2 == 0,
+        yield "history", {"seed": sd, "n": 14 + sd % 3, "symm": True, "var": False, "layout": [14 + sd % 3], "steps": 2, "scool": sd % 2 == 0,
                           "ops": ["create", "zoomify2"]}
     yield "history", {"seed": 25, "n": 5, "symm": True, "var": False, "layout": [3, 2], "steps": 2, "scool": True, "ops": ["bigcounts", "create"]}
     yield "rlencode", {"xs": [0, 0, 1, 1, 1, 3], "chunks": [1, 2, 3, 4, 5, 6, 7]}
